@@ -267,7 +267,10 @@ fn run_curve2(c: &mut Ctx) {
             let lo = tied[0].saturating_sub(1);
             let hi = (tied[tied.len() - 1] + 1).min(va.len() - 2);
             let e_near = (lo..=hi).map(|k| (va[k + 1] - va[k]).norm()).fold(f64::INFINITY, f64::min);
-            let lever = 1e2 * U * (m.offset() + mb.offset()) * bd / e_near;
+            // (edges tied for the minimum may each be reported: their closest points differ by `spread`)
+            let cp0 = closest_on_seg2(&va[tied[0]], &va[tied[0] + 1], &q).0;
+            let spread = tied.iter().map(|&k| (closest_on_seg2(&va[k], &va[k + 1], &q).0 - cp0).norm()).fold(0.0, f64::max);
+            let lever = 1e2 * U * (m.offset() + mb.offset()) * bd / e_near + 2.0 * spread;
             if c.verbose && (p1 - t * p0).norm() > eps + lever {
                 let k = tied[0];
                 println!("  q {:?} bd {bd:e} tied {:?} edge {k}: {:?} -> {:?} (len {e_near:e}); p0 {:?} p1 {:?} T p0 {:?}; eps {eps:e} lever {lever:e}; prev edge len {:?}, next edge len {:?}", q, tied, va[k], va[k + 1], p0, p1, t * p0, if k > 0 { Some((va[k] - va[k - 1]).norm()) } else { None }, va.get(k + 2).map(|w| (w - va[k + 1]).norm()));
@@ -362,7 +365,9 @@ fn run_curve3(c: &mut Ctx) {
             let lo = tied[0].saturating_sub(1);
             let hi = (tied[tied.len() - 1] + 1).min(va.len() - 2);
             let e_near = (lo..=hi).map(|k| (va[k + 1] - va[k]).norm()).fold(f64::INFINITY, f64::min);
-            let lever = 1e2 * U * (m.offset() + mb.offset()) * bd / e_near;
+            let cp0 = closest_on_seg3(&va[tied[0]], &va[tied[0] + 1], &q).0;
+            let spread = tied.iter().map(|&k| (closest_on_seg3(&va[k], &va[k + 1], &q).0 - cp0).norm()).fold(0.0, f64::max);
+            let lever = 1e2 * U * (m.offset() + mb.offset()) * bd / e_near + 2.0 * spread;
             c.close("Curve3::at_closest_to_point", "equivariant point", class, (p1 - t * p0).norm(), 0.0, eps + lever);
             let k = tied[0];
             let interior = tied.len() == 1 && (p0 - va[k]).norm() > 1e-6 * ext && (p0 - va[k + 1]).norm() > 1e-6 * ext;
@@ -506,7 +511,29 @@ fn run_mesh(c: &mut Ctx) {
         }
         let unique_pt = cps.iter().all(|p| (p.0 - cps[0].0).norm() <= 1e-5 * ext);
         if unique_pt {
-            c.close("Mesh::surf_closest_to", "equivariant point", class, (sb.point - t * sa.point).norm(), 0.0, eps);
+            // the moved vertices are rounded (u x offset), which tilts a face of height h by
+            // u x offset / h; the foot of a query at distance d moves by d times that angle
+            let h_min = cps
+                .iter()
+                .map(|(_, fi)| {
+                    let tr = raw.f[*fi];
+                    let (x, y, z) = (raw.v[tr[0] as usize], raw.v[tr[1] as usize], raw.v[tr[2] as usize]);
+                    let emax = (y - x).norm().max((z - y).norm()).max((x - z).norm());
+                    (y - x).cross(&(z - x)).norm() / emax
+                })
+                .fold(f64::INFINITY, f64::min);
+            // faces tied for the minimum (within 1e-6 ext) may each be reported: their closest
+            // points differ by `spread` (below 1e-5 ext, or the point would not count as unique)
+            let spread = cps.iter().map(|x| (x.0 - cps[0].0).norm()).fold(0.0, f64::max);
+            let lever = 1e2 * U * (raw.offset_norm() + moved.offset_norm()) * bd / h_min + 2.0 * spread;
+            if c.verbose && (sb.point - t * sa.point).norm() > eps + lever {
+                println!("  q {:?} bd {bd:e} ext {ext:e}; tied faces {:?}; sa {:?} sb {:?} T sa {:?}; t^-1 sb {:?}", q, cps.iter().map(|x| (x.1, x.0)).collect::<Vec<_>>(), sa.point, sb.point, t * sa.point, t.inverse() * sb.point);
+                for (_, fi) in &cps {
+                    let tr = raw.f[*fi];
+                    println!("    face {fi}: {:?} {:?} {:?}", raw.v[tr[0] as usize], raw.v[tr[1] as usize], raw.v[tr[2] as usize]);
+                }
+            }
+            c.close("Mesh::surf_closest_to", "equivariant point", class, (sb.point - t * sa.point).norm(), 0.0, eps + lever);
             if bd > 2e-6 {
                 c.close("Mesh::measure_point_deviation", "point-mode magnitude invariant", class, db.abs(), da.abs(), eps);
             }
